@@ -1,5 +1,6 @@
 import Lean.Data.Json
 import NirVerif.Model.Node
+import NirVerif.Model.File
 /-
   JSON codec for the line protocol (driver only; not part of the verified model).
 -/
@@ -101,6 +102,39 @@ partial def nodeToJson (n : Node) : Json :=
     ("meta", valToJson n.metadata),
     ("nodes", .arr (n.children.map fun (k, c) => Json.arr #[.str k, nodeToJson c]).toArray),
     ("edges", .arr (n.edges.map fun (a, b) => Json.arr #[.str a, .str b]).toArray)]
+
+def shapeJson (sh : List Nat) : Json := .arr (sh.map fun n => Json.num (JsonNumber.fromNat n)).toArray
+
+def dsetToJson : DsetVal → Json
+  | .str s => Json.mkObj [("kind", .str "str"), ("shape", .arr #[]), ("v", .str s)]
+  | .num dt sh d => Json.mkObj [("kind", .str "num"), ("dtype", .str (dtypeStr dt)), ("shape", shapeJson sh), ("x", .str (toHex d))]
+  | .strs sh items => Json.mkObj [("kind", .str "str"), ("shape", shapeJson sh), ("v", .arr (items.map Json.str).toArray)]
+
+partial def h5ToJson : H5 → Json
+  | .group items => Json.mkObj [("g", .arr (items.map fun (k, v) => Json.arr #[.str k, h5ToJson v]).toArray)]
+  | .dset v => Json.mkObj [("ds", dsetToJson v)]
+
+def dsetOfJson (j : Json) : Except String DsetVal := do
+  let kind ← (← j.getObjVal? "kind").getStr?
+  let sh ← (← (← j.getObjVal? "shape").getArr?).toList.mapM (·.getNat?)
+  if kind == "str" then
+    match ← j.getObjVal? "v" with
+    | .str s => pure (.str s)
+    | .arr xs => pure (.strs sh (← xs.toList.mapM (·.getStr?)))
+    | _ => throw "bad str dataset"
+  else
+    pure (.num (← parseDType (← (← j.getObjVal? "dtype").getStr?)) sh (← parseHex (← (← j.getObjVal? "x").getStr?)))
+
+partial def h5OfJson (j : Json) : Except String H5 := do
+  if let .ok g := j.getObjVal? "g" then
+    let items ← (← g.getArr?).toList.mapM fun kv => do
+      let a ← kv.getArr?
+      if a.size != 2 then throw "bad h5 entry"
+      pure ((← a[0]!.getStr?), (← h5OfJson a[1]!))
+    return .group items
+  if let .ok d := j.getObjVal? "ds" then
+    return .dset (← dsetOfJson d)
+  throw "bad h5 node"
 
 def errJson (e : PyErr) : Json := Json.mkObj [("err", .str e.name)]
 
